@@ -16,8 +16,9 @@ C16 (scalar multiplications) — the loop skeletons of `(*Point).ScalarMult` and
 Pinned thereby: start value, `table.Init(q)` before the first use, top digit first, four doublings
 then select-and-add per digit, loop bounds 110 … 0 resp. odd digits / four `v.Add(v, v)` / even
 digits, the table index `i/2`, the digit index.  Still hand-modelled: `signedRadix16` itself
-(proved correct in GoatProofs.Group), `checkInitialized` (guard pinned), and
-`VarTimeDoubleScalarBaseMult` (data-dependent loop start and branches: NOT covered).
+(proved correct in GoatProofs.Group), `checkInitialized` (guard pinned).
+`VarTimeDoubleScalarBaseMult` (data-dependent loop start and branches): the loop BODY and the statements
+outside the loops are regenerated (last section); the skip loop / fold are hand-modelled.
 -/
 namespace C16MulOps
 open PtOps Model.WindowMul
@@ -117,5 +118,146 @@ theorem scalarBaseMult_facts :
     ∧ G.scalarBaseMult.guards = [] ∧ G.scalarBaseMult.paramWrites = [] ∧ G.scalarBaseMult.hazards = []
     ∧ G.scalarBaseMult.facts = [("table-func", "basepointTable() = &varBasepointTable"), ("opaque a0", "p0.signedRadix16()"), ("index-checked", "a0 in [1, 111] of 112"), ("loop 1", "from 1 below 112 step 2"), ("index-checked", "a0 in [0, 110] of 112"), ("loop 2", "from 0 below 112 step 2")] := by
   ptops_decide "C16MulOps.scalarBaseMult_facts"
+
+/-! ## `VarTimeDoubleScalarBaseMult`: data-dependent loop start, `if x > 0 / else if x < 0` per digit
+
+The translator (config `part`) checks the shape `pre…; i := 447; for ; i >= 0; i-- { if c { break } };
+v.Zero(); for ; i >= 0; i-- { body }; return v`, records the normal form of `c`, and regenerates the
+statements outside the loops (`doubleScalarInit`) and the BODY of the second loop (`doubleScalarStep`,
+the loop variable an input, `Stmt.ite` / `IExpr.lt` / `IExpr.negI8`).  The body is proved equal to the
+per-iteration step of `Model.WindowMul.ed448DoubleScalarMult` whenever that does not panic (the panic is
+the data-dependent table index, `C16TblOps.nafSelect_ops`).  The skipping of the leading zero positions
+(`dropWhile` in the model) and the fold itself stay hand-modelled (pinned: facts "loop 1" / "loop 2"). -/
+
+namespace G
+export Gen.TblOps448 (doubleScalarInit doubleScalarStep)
+end G
+
+theorem intPos_iff (x : Int) : intPos x = true ↔ 0 < x := by
+  cases x with
+  | ofNat n => cases n with
+    | zero => simp [intPos]
+    | succ n => simp [intPos]
+  | negSucc n => simp [intPos]
+
+/-- `if x > 0 { v += T[x/2] } else if x < 0 { v -= T[(-x)/2] }` without the index panic of
+    `nafLookupTable.SelectInto` (`-x` in int8) -/
+def addSubPure (g : GroupOps C) (tbl : Nat → C) (off : Nat) (v : C) : Int → C
+  | .ofNat 0 => v
+  | .ofNat (n + 1) => g.add v (tbl (off + (Int.tdiv (.ofNat (n + 1)) 2).toNat))
+  | .negSucc n => g.sub v (tbl (off + (Int.tdiv (Model.Recode.wrapI8 (-(.negSucc n))) 2).toNat))
+
+theorem nafSelect_ok (tbl : List C) (x : Int) (d r : C) (h : nafSelect tbl x = .ok r) :
+    r = tbl.getD (Int.tdiv x 2).toNat d := by
+  unfold nafSelect at h
+  simp only at h
+  split at h
+  · cases h
+  · split at h
+    · rename_i q hq
+      cases h
+      simp [List.getD, hq]
+    · cases h
+
+theorem nafAddSub_ok (g : GroupOps C) (tbl : List C) (v : C) (x : Int) (d r : C)
+    (h : nafAddSub g tbl v x = .ok r) : r = addSubPure g (fun k => tbl.getD k d) 0 v x := by
+  unfold nafAddSub at h
+  cases x with
+  | ofNat n =>
+    cases n with
+    | zero => simp at h; cases h; rfl
+    | succ n =>
+      rw [if_pos (show Int.ofNat (n + 1) > 0 from Int.natCast_pos.mpr (Nat.succ_pos n))] at h
+      cases hs : nafSelect tbl (Int.ofNat (n + 1)) with
+      | ok m =>
+        rw [hs] at h; cases h
+        rw [nafSelect_ok tbl _ d m hs]
+        simp [addSubPure]
+      | panic s => rw [hs] at h; cases h
+      | err a => rw [hs] at h; cases h
+  | negSucc n =>
+    rw [if_neg (by have := Int.negSucc_lt_zero n; omega), if_pos (Int.negSucc_lt_zero n)] at h
+    cases hs : nafSelect tbl (Model.Recode.wrapI8 (-(Int.negSucc n))) with
+    | ok m =>
+      rw [hs] at h; cases h
+      rw [nafSelect_ok tbl _ d m hs]
+      simp [addSubPure]
+    | panic s => rw [hs] at h; cases h
+    | err a => rw [hs] at h; cases h
+
+/-- atomic table methods: `Init` as the models build the NAF tables, `SelectInto` = `*dest = points[x/2]` -/
+def popsN (g : GroupOps C) : PointOps C where
+  set := fun u => u
+  zero := g.zero
+  add := g.add
+  double := g.double
+  neg := g.neg
+  sub := g.sub
+  select := fun a _ _ => a
+  condNeg := fun a _ => a
+  fromAffine := fun u => u
+  newGenerator := g.zero
+  newIdentity := g.zero
+  ctEq := fun _ _ => 0
+  tblInit := fun _ p k => (nafTable5 g p).getD k g.zero
+  tblSelect := fun _ a off x => a (off + (Int.tdiv x 2).toNat)
+
+/-- variables: v = 0 (receiver), aNAF = 2, bNAF = 3 (both digits constant here: `xa`, `xb` at every
+    position), basepoint NAF table = 4, aTable = 5, the loop variable = 6 -/
+def envS (v d : C) (aT bT : Nat → C) (xa xb i : Int) : PEnv C :=
+  ⟨fun k => cond (Nat.beq k 0) v d, fun a => cond (Nat.beq a 5) aT bT, fun _ => i,
+   fun a _ => cond (Nat.beq a 2) xa xb⟩
+
+/-- one iteration, pure -/
+def stepPure (g : GroupOps C) (aT bT : Nat → C) (v : C) (xa xb : Int) : C :=
+  addSubPure g bT 0 (addSubPure g aT 0 (g.double v) xa) xb
+
+theorem stepPure_ops (g : GroupOps C) (aT bT : Nat → C) (v d : C) (xa xb i : Int) :
+    stepPure g aT bT v xa xb
+      = (runStmt (popsN g) G.doubleScalarStep.body (envS v d aT bT xa xb i)).pts 0 := by
+  ptops_named "C16MulOps.stepPure_ops" =>
+    (rcases xa with (_ | n) | n <;> rcases xb with (_ | m) | m <;> kernel_rfl)
+
+/-- the per-iteration step of `Model.WindowMul.ed448DoubleScalarMult` (double; ±A-table entry; ±basepoint
+    table entry), whenever it does not panic = the regenerated loop body -/
+theorem doubleScalarStep_ops (g : GroupOps C) (aTbl bTbl : List C) (v d r : C) (xa xb i : Int)
+    (h : (nafAddSub g aTbl (g.double v) xa).bind (fun v => nafAddSub g bTbl v xb) = .ok r) :
+    r = (runStmt (popsN g) G.doubleScalarStep.body
+          (envS v d (fun k => aTbl.getD k d) (fun k => bTbl.getD k d) xa xb i)).pts 0 := by
+  rw [← stepPure_ops]
+  cases h1 : nafAddSub g aTbl (g.double v) xa with
+  | ok w =>
+    rw [h1] at h
+    have h2 : nafAddSub g bTbl w xb = .ok r := h
+    rw [nafAddSub_ok g bTbl w xb d r h2, nafAddSub_ok g aTbl _ xa d w h1]
+    rfl
+  | panic s => rw [h1] at h; cases h
+  | err a => rw [h1] at h; cases h
+
+/-- the statements outside the loops: `aTable.Init(A)`, `i := 447`, `v.Zero()` -/
+theorem doubleScalarInit_ops (g : GroupOps C) (v a d : C) (aT bT : Nat → C) (xa xb i : Int) :
+    let e := runStmt (popsN g) G.doubleScalarInit.body
+      ⟨fun k => cond (Nat.beq k 0) v (cond (Nat.beq k 1) a d), fun a => cond (Nat.beq a 5) aT bT, fun _ => i,
+       fun a _ => cond (Nat.beq a 2) xa xb⟩
+    e.pts 0 = g.zero ∧ (List.range 8).map (e.arrs 5) = nafTable5 g a ∧ e.ints 6 = 447 ∧ e.arrs 4 = bT := by
+  ptops_named "C16MulOps.doubleScalarInit_ops" => (intro e; exact ⟨rfl, rfl, rfl, rfl⟩)
+
+theorem doubleScalar_facts :
+    G.doubleScalarStep.inputs = ["r", "p1", "a0", "a1", "varBasepointNAFTable.f0", "l1"]
+    ∧ G.doubleScalarInit.inputs = ["r", "p1", "a0", "a1", "varBasepointNAFTable.f0"]
+    ∧ G.doubleScalarStep.outputs = ["r"] ∧ G.doubleScalarInit.outputs = ["r"]
+    ∧ G.doubleScalarStep.guards = [("checkInitialized", ["p1"])]
+    ∧ G.doubleScalarInit.guards = [("checkInitialized", ["p1"])]
+    ∧ G.doubleScalarStep.paramWrites = [] ∧ G.doubleScalarInit.paramWrites = []
+    ∧ G.doubleScalarStep.hazards = [] ∧ G.doubleScalarInit.hazards = []
+    ∧ G.doubleScalarInit.facts = G.doubleScalarStep.facts
+    ∧ G.doubleScalarStep.facts = [("opaque a0", "p0.nonAdjacentForm(5)"),
+        ("opaque a1", "p2.nonAdjacentForm(8)"),
+        ("table-func", "basepointNAFTable() = &varBasepointNAFTable"),
+        ("index-checked", "a0 in [0, 447] of 448"),
+        ("index-checked", "a1 in [0, 447] of 448"),
+        ("loop 1", "l1 from 447 down to 0, leaves at the first position where ((a0[l1] != 0) || (a1[l1] != 0))"),
+        ("loop 2", "l1 continues down to 0")] := by
+  ptops_decide "C16MulOps.doubleScalar_facts"
 
 end C16MulOps
